@@ -13,6 +13,7 @@ EXPLANATION = (
     "+, -, *, / (or augmented form) combines a may-Decimal operand with a may-Float operand (Python raises TypeError for Decimal (+) float), and every Decimal(x) of a may-Float x "
     "goes through str (Decimal(0.1) imports the binary expansion). increment_time is Decimal(str(a)) + Decimal(str(b)) in both exact classes; the overrides are call-compatible "
     "with the base methods and build the same objects; an exact Simulation selects the exact classes and sets the precision. Agreement with the float run 'up to rounding' is not decided.")
+EXPLANATION += (" Added later: " 'any other override of an engine method in the exact classes equals the base method up to Decimal constants.')
 RULE = "instances = arithmetic operator nodes and Decimal(...) calls in every method visible through the exact views, evaluated under the inferred field types"
 
 DEC, FLT, INT, SENT, STR, UNK, NONE = "Decimal", "Float", "Int", "Sentinel", "Str", "Unknown", "None"
